@@ -1,10 +1,13 @@
 package main
 
 import (
+	"math/big"
+
 	"bytes"
 	"encoding/binary"
 	"encoding/json"
 	"encoding/pem"
+	"filippo.io/edwards25519"
 	"fmt"
 	"strings"
 
@@ -19,11 +22,13 @@ import (
 )
 
 type codecCase struct {
-	Prop, Kind                                   string
-	A, B                                         string
-	Code, CodeVar, LenRel, LenVar, Digest, Text  string
-	Enc, Which, Mal                              string
-	Ht, Of, Len, Vdata                           string
+	Prop, Kind                                  string
+	A, B                                        string
+	Code, CodeVar, LenRel, LenVar, Digest, Text string
+	Enc, Which, Mal                             string
+	Ht, Of, Len, Vdata                          string
+	Cls                                         string
+	V                                           int
 }
 
 func uvar(v uint64) []byte {
@@ -75,6 +80,8 @@ func init() {
 						o = codecKey(c, j, rng.Intn(1<<20))
 					case "hash":
 						o = codecHash(c, j, rng.Intn(1<<20))
+					case "rawpub":
+						o = codecRawPub(c, j)
 					}
 				})
 				if p != "" {
@@ -93,6 +100,86 @@ func init() {
 			out.Emit(agg)
 		}
 	}
+}
+
+// unusualPoints: 32-byte strings that decode to a curve point but are not that point's canonical encoding
+// (y >= p, or x = 0 with the sign bit set), found by trying the 2 x 19 + 4 candidates.
+var unusualPoints = func() (nonCanonY, zeroXSign [][]byte) {
+	p := new(big.Int).Sub(new(big.Int).Lsh(big.NewInt(1), 255), big.NewInt(19))
+	enc := func(y *big.Int, sign byte) []byte {
+		b := make([]byte, 32)
+		yb := y.Bytes()
+		for i := range yb {
+			b[i] = yb[len(yb)-1-i]
+		}
+		b[31] |= sign << 7
+		return b
+	}
+	for d := int64(0); d < 19; d++ {
+		for sign := byte(0); sign < 2; sign++ {
+			b := enc(new(big.Int).Add(p, big.NewInt(d)), sign)
+			if pt, err := new(edwards25519.Point).SetBytes(b); err == nil && !bytes.Equal(pt.Bytes(), b) {
+				nonCanonY = append(nonCanonY, b)
+			}
+		}
+	}
+	for _, y := range []*big.Int{big.NewInt(1), new(big.Int).Sub(p, big.NewInt(1))} {
+		b := enc(y, 1)
+		if pt, err := new(edwards25519.Point).SetBytes(b); err == nil && !bytes.Equal(pt.Bytes(), b) {
+			zeroXSign = append(zeroXSign, b)
+		}
+	}
+	return
+}
+
+// codecRawPub: a public key given as unusual raw bytes must either be refused or survive decode + re-encode unchanged.
+func codecRawPub(c codecCase, j int) map[string]any {
+	ny, zx := unusualPoints()
+	var raw []byte
+	switch c.Cls {
+	case "noncanonicalY":
+		raw = ny[(c.V*7+j)%len(ny)]
+	case "zeroXsign":
+		raw = zx[(c.V+j)%len(zx)]
+	default: // notOnCurve: y = 2 + k has no x for several small k; take the first that does not decode
+		for k := 0; ; k++ {
+			raw = make([]byte, 32)
+			raw[0] = byte(2 + c.V + j + k)
+			if _, err := new(edwards25519.Point).SetBytes(raw); err != nil {
+				break
+			}
+		}
+	}
+	pb, _ := (&crypto.PublicKey{KeyType: crypto.KeyType_Ed25519, Data: raw}).MarshalVT()
+	res := "error"
+	keep := func(k crypto.PubKey, err error) {
+		if err != nil || k == nil {
+			return
+		}
+		got, e := k.Raw()
+		if e == nil && bytes.Equal(got, raw) {
+			if res == "error" {
+				res = "same"
+			}
+		} else {
+			res = "changed"
+		}
+		if m, e := crypto.MarshalPublicKey(k); e != nil || !bytes.Equal(m, pb) {
+			res = "changed"
+		}
+	}
+	switch c.Enc {
+	case "proto":
+		keep(crypto.UnmarshalPublicKey(pb))
+		keep(crypto.UnmarshalEd25519PublicKey(raw))
+	case "pem":
+		dat := pem.EncodeToMemory(&pem.Block{Type: keypem.PubPemType, Bytes: pb})
+		keep(keypem.ParsePubKeyPem(dat))
+		keep(confparse.ParsePublicKeyPEM(dat))
+	case "b58":
+		keep(confparse.ParsePublicKey(b58.Encode(pb)))
+	}
+	return map[string]any{"res": res, "n_noncanon": len(ny)}
 }
 
 func codecPair(c codecCase, j int) map[string]any {
